@@ -180,6 +180,13 @@ func main() {
 			r.encs = append(r.encs, lf)
 		}
 		r.prel = eng.buildPrelude()
+		for _, f := range r.encs {
+			encByName[f.name] = f
+			prelByFunc[f.name] = r.prel
+			if rel, err := filepath.Rel(*repo, r.dir); err == nil {
+				pkgDirOf[f.name] = rel
+			}
+		}
 		if *dump != "" {
 			os.WriteFile(filepath.Join(tmp, "prelude_"+sanitize(r.dir)+".smt2"), []byte(r.prel), 0644)
 			for _, f := range r.encs {
@@ -541,10 +548,6 @@ func mergeBounded(cov map[string]interface{}, prop string) {
 	if json.Unmarshal(data, &m) == nil {
 		cov["bounded"] = m
 	}
-}
-
-func tryReplay(ob *Obligation, r *SolveResult, rb *strings.Builder, repo string) bool {
-	return false
 }
 
 // manifestCategory reads the level claimed for prop in /verif/MANIFEST.json.
